@@ -14,7 +14,7 @@ RECURSIVE PickN(_, _, _)
 PickN(S, n, k) == IF n = 0 \/ S = {} THEN <<>>
                   ELSE LET x == Pick(S, R(k)) IN <<x>> \o PickN(S \ {x}, n - 1, k + 1)
 Blank == [kind |-> "", name |-> "", srcs |-> <<>>, libs |-> <<>>, ins |-> <<>>, nouts |-> 1,
-          always |-> FALSE, deps |-> <<>>, dist |-> TRUE, pch |-> FALSE, xdeps |-> <<>>, cdeps |-> <<>>, hdr |-> FALSE, mode |-> "copy"]
+          always |-> FALSE, deps |-> <<>>, dist |-> TRUE, pch |-> FALSE, xdeps |-> <<>>, cdeps |-> <<>>, vlib |-> FALSE, hdr |-> FALSE, mode |-> "copy"]
 MkSrcs(P, k) ==
   LET fs == PickN({"s1", "s2", "s3"}, 1 + Below(R(k), 2), k + 1)
       gens == Kinds(P, {"step"})
@@ -36,7 +36,7 @@ MkDecl(P, i) ==
       \* pch='<header name>' makes bfg9000 create one pch step per object: only with a single source
       xd == IF filesT # {} /\ Below(R(12), 5) = 0 THEN PickN(filesT, 1, 45) ELSE <<>>
       cd == IF filesT # {} /\ Below(R(14), 4) = 0 THEN PickN(filesT, 1, 47) ELSE <<>>
-      exe == [exe0 EXCEPT !.xdeps = xd, !.cdeps = cd, !.hdr = (Below(R(13), 5) = 0), !.pch = (Len(exe0.srcs) = 1 /\ Below(R(11), IF hdrs # <<>> THEN 4 ELSE 16) < 3)] IN
+      exe == [exe0 EXCEPT !.xdeps = xd, !.cdeps = cd, !.vlib = (Below(R(16), 5) = 0), !.hdr = (Below(R(13), 5) = 0), !.pch = (Len(exe0.srcs) = 1 /\ Below(R(11), IF hdrs # <<>> THEN 4 ELSE 16) < 3)] IN
   IF c <= 3 THEN exe
   \* (a dual-use library - library() - instead of every second shared one; no extra_deps: they would
   \*  belong to both of its link steps)
@@ -44,6 +44,7 @@ MkDecl(P, i) ==
                                     !.name = nm, !.srcs = MkSrcs(P, 10),
                                     !.libs = PickN(IF c = 6 THEN libsD ELSE libsA, Below(R(2), 2), 20), !.ins = hdrs,
                                     !.xdeps = (IF c = 6 /\ Below(R(15), 2) = 0 THEN <<>> ELSE xd), !.cdeps = cd,
+                                    !.vlib = (c = 6 /\ Below(R(16), 4) = 0),
                                     !.hdr = (Below(R(13), 6) = 0)]
   ELSE IF c <= 8 THEN
        LET fins == PickN({"d1", "s3"}, Below(R(3), 2), 30)
